@@ -171,12 +171,12 @@ def h_binary(ctx):
     u = ctx.mod('sempler.utils')
     p = ctx.params['p']
     pat = I.binary_pdag(ctx)
-    M = I.arr(pat, 'int')
+    M = I.arr(pat, ctx.params.get('dtype', 'int'))
     M.buf.frozen = True
     isdag = all(not (pat[i][j] and pat[j][i]) for i in range(p) for j in range(p))
     log = CallLog('sempler.utils')
     cl = _checks(u, log, M, pat, p, isdag)
-    return PathResult('dag' if isdag else 'pdag', cl, inputs=dict(calls=log.inputs(), P=[list(r) for r in pat], dtype='int'),
+    return PathResult('dag' if isdag else 'pdag', cl, inputs=dict(calls=log.inputs(), P=[list(r) for r in pat], dtype=ctx.params.get('dtype', 'int')),
                       call='binary', info=dict(pattern=[list(r) for r in pat]),
                       diff=(real_replay('sempler.utils'), log.symbolic()))
 
@@ -201,6 +201,9 @@ def obligations(tier):
                              "all binary PDAGs (acyclic directed part) on %d nodes" % p, expect=('dag',) + (('pdag',) if p > 1 else ()), weight=p))
         ob.append(Obligation('weighted_dag_p%d' % p, h_weighted, I.dag_pair_cubes(p, 2 if p == 3 else 0),
                              "all DAG patterns on %d nodes with symbolic real weights" % p, expect=('dag',), weight=p))
+        for dt in ('bool', 'float'):
+            ob.append(Obligation('binary_pdag_%s_p%d' % (dt, p), h_binary, I.pair_cubes(p, 2 if p == 3 else 0, dict(dtype=dt)),
+                                 "all binary PDAGs on %d nodes, dtype %s" % (p, dt), expect=('dag',) + (('pdag',) if p > 1 else ()), weight=p))
     ob.append(Obligation('weighted_dag_p4', h_weighted, I.dag_pair_cubes(4, 3),
                          "all DAG patterns on 4 nodes with symbolic real weights", expect=('dag',), weight=20))
     wl = [11, 1, 9] if tier == 'quick' else [11, 1, 9, 0]
@@ -225,7 +228,7 @@ def replay(rec):
     s = real_sempler()
     u = s.utils
     inp = rec['inputs']
-    P = numpy.array(unj_float(inp['P']), dtype=int if inp.get('dtype') == 'int' else float)
+    P = numpy.array(unj_float(inp['P']), dtype={'int': int, 'bool': bool}.get(inp.get('dtype'), float))
     p = len(P)
     nz = [[bool(P[i][j] != 0) for j in range(p)] for i in range(p)]
     _, d, un, a = rel(nz)
